@@ -238,7 +238,15 @@ CLAIMS = {
              'C03_singles_immediate, C03_wf_check_sound are proved in Coq for any number of messages, any interleaving, '
              'per-message fragment permutations, slot reuse after completion, incomplete sets, any fragment count, with '
              'wrapper and skipped lines in between. The loops are modelled given the outcome of produce(line) (C05/C10 model '
-             'the parser; Model/Reader.v composes them). ' + TIE,
+             'the parser; Model/Reader.v composes them). Backpressure extension (bounded NMEAQueue(maxsize=n) whose final put '
+             'may raise queue.Full; queue_step_b, per line the environment says whether the put is accepted, so the capacity '
+             'and the consumer are arbitrary): C03_bounded_step, C03_bounded_all_accepted, C03_bounded_backpressure, '
+             'C03_bounded_states, C03_bounded_nothing_new (for every line sequence and every pattern of accepted / refused puts '
+             'the state after each line is that of the unbounded queue, the sentences put are its deliveries at the accepted '
+             'lines, queue.Full is raised exactly where it delivers and the put is refused) and C03_bounded_queue (on '
+             'well-formed schedules: spec_deliveries at the accepted lines, nothing mixed, nothing twice, nothing left in the '
+             'slot table); C03_put_before_del_mixes_messages shows that exchanging the last two statements of put_line breaks it. '
+             + TIE,
         note=BASE_NOTE + 'Prim/PyList.v models list indexing / slicing with Python semantics; dictionaries are insertion-'
              'ordered association lists; the buffer size, except tuples and line filter literals are tied to the source by '
              'C05_literals_tied over Gen/GenConst.v.',
@@ -286,7 +294,9 @@ CLAIMS = {
              'line without its tag block), C07_wrappers, C07_decode_agrees and C07_decode_agrees_schedule (for a complete '
              'message whose parts parse, the reader -- whatever other lines are interleaved -- delivers exactly one sentence whose '
              'raw / payload / bits / validity / message id are those of decode_api of ANY permutation of the parts, and '
-             'sentence_decode of it equals the decoded message), C07_decode_by_content; C07_partial remains as a corollary. '
+             'sentence_decode of it equals the decoded message), C07_decode_by_content; C07_partial remains as a corollary; '
+             'C07_bounded_queue (a bounded NMEAQueue whose puts may raise queue.Full puts / refuses exactly the stream loop\'s '
+             'deliveries, line by line, and ends in the same state, for every pattern of accepted / refused puts). '
              'Restrictions are on hypotheses only (the message\'s own slot holds exactly its parts, or the whole input is a '
              'well-formed schedule). ' + TIE,
         note=BASE_NOTE + 'preprocessors are not modelled; lines starting with white space or a non-standard delimiter are '
@@ -311,7 +321,10 @@ CLAIMS = {
              'latest wrapper since the previous delivery, taken and cleared by the next delivery, single or assembled), '
              'C18_schedules_*, C18_unwrapped_has_none, C18_at_most_one, C18_latest are proved in Coq; '
              'C18_unrepaired_queue_refuted shows the pre-fix queue loop violating the statement (the defect repaired by the '
-             'fix: commit on queue.py). ' + TIE,
+             'fix: commit on queue.py). Backpressure extension: C18_bounded_queue / C18_bounded_schedules (bounded NMEAQueue whose '
+             'put may raise queue.Full, every pattern of accepted / refused puts: a message on the queue carries the wrapper the '
+             'unbounded reader attaches to it; a refused message takes its wrapper with it -- an attempted put is the delivery '
+             'that consumes the pending wrapper). ' + TIE,
         note=BASE_NOTE + 'wrapper field parsing (timestamp, country, region, pss, online) is part of the parser model '
              '(Model/Nmea.v gatehouse_init) and compared by the correspondence.',
         design='DESIGN.md section 7, C18'),
